@@ -59,6 +59,42 @@ Definition member_range (row col : Z) (s : stamp) : Z * Z * Z * Z :=
 (* … and its two INDEX arguments *)
 Definition member_index (s : stamp) : Z * Z := let '(i, j, _, _) := s in (i, j).
 
+(* --------------------------------------- which range is an array formula's range *)
+(* a cell of the loaded sheet, as far as _OpxRange.__new__ looks at it: a
+   member written by load_array_formulas (the array formula's text and the
+   stamp; the cell text is =CSE_INDEX(<text>,i,j,h,w)), or anything else (a
+   value, an ordinary formula, an empty cell) *)
+Inductive sheet_cell := Other | Member (text : str) (s : stamp).
+
+(* the cell text after "=CSE_INDEX(" *)
+Definition member_text (text : str) (s : stamp) : str :=
+  let '(i, j, h, w) := s in
+  text ++ [44] ++ str_of_Z i ++ [44] ++ str_of_Z j ++ [44] ++ str_of_Z h ++ [44] ++ str_of_Z w ++ [41].
+
+(* _OpxRange.__new__ (excelwrapper.py 77-87): the range gets the array formula
+   of its top left cell as ITS formula when that cell is member (1, 1) and every
+   cell of the range starts with the same "=CSE_INDEX(<text>" (front = the top
+   left text before its last four commas; the numbers hold no comma).  None:
+   the range has no formula of its own (a tuple of per-cell formulas, or no
+   formula at all) and is evaluated cell by cell *)
+Definition range_formula (cells : list (list sheet_cell)) : option str :=
+  match cells with
+  | (Member f (i, j, _, _) :: _) :: _ =>
+      if (i =? 1) && (j =? 1)
+         && forallb (forallb (fun c => match c with
+                                       | Member g s => str_prefix f (member_text g s)
+                                       | Other => false
+                                       end)) cells
+      then Some f else None
+  | _ => None
+  end.
+
+(* the cells load_array_formulas writes for an array formula with text [f]
+   over a reference range of size (h, w), as rows *)
+Definition sheet_rows (f : str) (h w : Z) : list (list sheet_cell) :=
+  map (fun i => map (fun j => Member f (Z.of_nat i, Z.of_nat j, h, w)) (seq 1 (Z.to_nat w)))
+      (seq 1 (Z.to_nat h)).
+
 (* ---------------------------------------------------------- the value side *)
 (* eval_func(excel_formula, cse_array_address) on the compiled lambda's value *)
 Definition eval_formula (ctx result : pyval) : res pyval :=
